@@ -65,6 +65,12 @@ static void hook(const char*)
 }
 
 static bool g_be_seen = false;
+// read notifications of one watched cell count as points of the schedule (variant ptrsw)
+static const volatile void* g_read_cell = nullptr;
+static void read_hook(const volatile void* addr)
+{
+  if (addr == g_read_cell) hook("read");
+}
 static void be_hook(const char* site)
 {
   if (std::strcmp(site, "be.same") != 0) return;      // only the consultation inside the range check counts here
@@ -228,6 +234,22 @@ static std::string run_case(const toks_t& t)
         g_track_new = false;
         return o;
       });
+    } else if (variant == "ptrsw") {
+      // copy_and_verify on a pointer-to-struct CELL; every read notification of the cell is a point of the schedule too
+      auto pp = g_sb->UNSAFE_accept_pointer(reinterpret_cast<SV**>(g_win + off));
+      auto& cellref = *pp;
+      g_read_cell = g_win + off;
+      rlbox::detail::verif_read_hook = read_hook;
+      try {
+        cellref.copy_and_verify([&](std::unique_ptr<tainted<SV>> v) {
+          if (!v) { out = "NULLPTR"; return 0; }
+          SV img = v->UNSAFE_unverified();
+          out = inspect(&img, sizeof(SV));
+          return 0;
+        });
+      } catch (...) { rlbox::detail::verif_read_hook = nullptr; g_read_cell = nullptr; throw; }
+      rlbox::detail::verif_read_hook = nullptr;
+      g_read_cell = nullptr;
     } else if (variant == "uspc") {
       // unverified_safe_pointer_because(count) on a pointer cell of the window (C10)
       auto pp = g_sb->UNSAFE_accept_pointer(reinterpret_cast<char**>(g_win + off));
